@@ -76,6 +76,10 @@ TEMPLATES = {
     "todayfilter": "{{ 'today' | date: '%Y-%m-%d %H' }}",
     "include": "{% include 'p' %}{% include 'p' %}{% render 'p' %}",
     "failing": "{% increment c %}{% cycle 1, 2 %}{% assign a = 1 %}{{ 7 | divided_by: z }}{% increment c %}",
+    "date_int": "{{ 1 | date: '%Y' }}{{ '86400' | date: '%j' }}",
+    "date_float": "{{ 1.0 | date: '%Y' }}",
+    "macro_render": "{% macro mr x %}{% render 'p', who: x %}{% endmacro %}{% call mr 'm' %}{% for i in arr limit: 1 %}{% call mr i %}{% endfor %}",
+    "render_extends": "{% render 'leaf', g: g %}{% for i in arr limit: 1 %}{% render 'leaf' %}{% endfor %}",
     "drops": "{{ h.a }}{% for i in arr %}{{ i }}{% increment c %}{% endfor %}{{ h.b.c }}{% cycle 1, 2 %}",
 }
 TNAMES = sorted(TEMPLATES)
@@ -189,6 +193,36 @@ class World:
         # a third one whose caching loader serves per-tenant sources, the tenant being a render variable
         self.env_tenant = Environment(loader=_tenant_loader())
         self.tenant_page = self.env_tenant.from_string(TENANT_PAGE, name="page")
+        self._fs: Any = None  # a caching file-system loader over a private directory, built on first use
+
+    # ---- file-backed templates: the harness writes the files, so it knows what a fresh loader would serve
+    def fs(self) -> Any:
+        if self._fs is None:
+            import shutil
+            import tempfile
+
+            from liquid2 import CachingFileSystemLoader
+            from liquid2 import Environment
+
+            d = tempfile.mkdtemp(prefix="verif_c09_")
+            self._fs = {"dir": d, "env": Environment(loader=CachingFileSystemLoader(d)), "version": 0, "mtime": 1_600_000_000.0}
+            self.fs_write(1, +0.0)
+            import weakref
+
+            weakref.finalize(self, shutil.rmtree, d, True)
+        return self._fs
+
+    def fs_write(self, version: int, dt: float) -> None:
+        """Replace both files with content `version`; the new modification time is `dt` seconds after the previous one
+        (negative: an older file is restored, as cp -p / rsync -t / a backup restore do)."""
+        f = self._fs
+        f["version"] = version
+        f["mtime"] += dt
+        for name, text in (("page", "page v%d|{%% include 'part' %%}" % version), ("part", "part v%d" % version)):
+            p = os.path.join(f["dir"], name)
+            with open(p, "w", encoding="utf-8") as fd:
+                fd.write(text)
+            os.utime(p, (f["mtime"], f["mtime"]))
 
     # every operation returns a JSON-able outcome
     def perform(self, op: tuple) -> Any:  # noqa: PLR0911, PLR0912
@@ -213,6 +247,18 @@ class World:
                 if mode == "sync":
                     return ["ok", self.tenant_page.render(tenant=tenant)]
                 return self._async(self.tenant_page.render_async(tenant=tenant))
+            if kind == "fs_render":
+                f = self.fs()
+                want = ["ok", "page v%d|part v%d" % (f["version"], f["version"])]
+                if op[1] == "sync":
+                    got = ["ok", f["env"].get_template("page").render()]
+                else:
+                    got = self._async(self._fs_job(f["env"]))
+                return got if got == want else ["stale", got, want]
+            if kind == "fs_write":
+                f = self.fs()
+                self.fs_write(f["version"] + 1, float(op[1]))
+                return ["ok", "written"]
             if kind == "analyze":
                 a = self.templates[op[1]].analyze()
                 return ["ok", [sorted(a.variables), sorted(a.filters), sorted(a.tags), sorted(a.globals)]]
@@ -244,6 +290,11 @@ class World:
         except Exception as e:  # noqa: BLE001
             return ["foreign", type(e).__name__, str(e)[:80]]
         raise ValueError(op)
+
+    @staticmethod
+    async def _fs_job(env: Any) -> str:
+        t = await env.get_template_async("page")
+        return await t.render_async()
 
     def _async(self, coro: Any) -> Any:
         from liquid2.exceptions import LiquidError
@@ -320,6 +371,7 @@ class World:
 
 AE_NAMES = ("nowfilter", "todayfilter", "now", "today", "capture")
 TENANT_OPS = [("tenant", t, m) for t in ("acme", "globex") for m in ("sync", "async")]
+FS_OPS = [("fs_render", "sync"), ("fs_render", "async"), ("fs_write", 10), ("fs_write", -10)]  # (an unchanged mtime cannot be noticed by design)
 
 
 def probe_ops() -> list[tuple]:
@@ -329,6 +381,7 @@ def probe_ops() -> list[tuple]:
         + [("render_ae", name, 0) for name in AE_NAMES]
         + [("render_ae_async", "nowfilter", 1)]
         + TENANT_OPS
+        + FS_OPS[:2]
     )
 
 
@@ -360,7 +413,7 @@ def baseline_subprocess(op: tuple, clock: float) -> Any:
 def compute_baselines(ops: list[tuple], clocks: list[float]) -> None:
     todo = []
     for op in ops:
-        if op[0] in ("advance",):
+        if op[0] in ("advance",) or op[0].startswith("fs_"):
             continue
         for c in clocks:
             k = _bkey(op, c)
@@ -403,6 +456,7 @@ def alphabet(tier: str) -> list[tuple]:
         ops.append(("render_ae", name, 0))
     ops.append(("render_ae_async", "nowfilter", 1))
     ops.extend(TENANT_OPS)
+    ops.extend(FS_OPS)
     ops.append(("advance",))
     n = fault_free_accesses("drops", 0)
     for k in range(1, n + 1):
@@ -420,6 +474,7 @@ def reduced_alphabet() -> list[tuple]:
         ("render", "extends", 0), ("render", "macro", 0), ("analyze", "extends"), ("pkg_render", "nowfilter", 0),
         ("other_env", 0), ("advance",), ("fault", "drops", 0, 2), ("cancel", "drops", 0, 2),
         ("render_ae", "nowfilter", 0), ("tenant", "acme", "async"), ("tenant", "globex", "async"),
+        ("fs_render", "sync"), ("fs_write", -10), ("render", "macro_render", 0),
     ]  # fmt: skip
 
 
@@ -442,8 +497,13 @@ def run_history(hist: tuple, res: ShardResult | None) -> list[tuple[str, Any, An
         got = w.perform(op)
         if res is not None:
             res.transitions += 1
-        if op[0] in ("render", "render_async", "fault", "cancel", "get_template", "from_string", "pkg_render", "render_ae", "render_ae_async", "tenant"):
+        if op[0] in ("render", "render_async", "fault", "cancel", "get_template", "from_string", "pkg_render", "render_ae", "render_ae_async", "tenant", "fs_render"):
             stateful += 1
+        if op[0].startswith("fs_"):
+            # self-checking: the harness wrote the files, a fresh loader would serve exactly their current content
+            if got[0] == "stale":
+                out.append((f"C09:step-differs:{_opname(op)}", {"step": i, "op": list(op), "clock": clock}, got[2], got[1]))
+            continue
         want = _BASE[_bkey(op, clock)]
         if op[0] == "cancel" and got[0] == "cancelled":
             continue  # a cancelled call has no result to compare; what matters is what follows
@@ -453,9 +513,15 @@ def run_history(hist: tuple, res: ShardResult | None) -> list[tuple[str, Any, An
     for dt in (0, HOUR):
         set_clock(clock + dt)
         for op in probe_ops():
+            if dt and not _time_dependent(op):
+                continue  # one hour later only what can depend on the clock is probed again
             got = w.perform(op)
             if res is not None:
                 res.transitions += 1
+            if op[0].startswith("fs_"):
+                if got[0] == "stale":
+                    out.append((f"C09:probe-differs:{_opname(op)}", {"probe": list(op), "clock": clock + dt, "after": [list(o) for o in hist]}, got[2], got[1]))
+                continue
             want = _BASE[_bkey(op, clock + dt)]
             if got != want:
                 out.append((f"C09:probe-differs:{_opname(op)}", {"probe": list(op), "clock": clock + dt, "after": [list(o) for o in hist]}, want, got))
@@ -467,6 +533,10 @@ def run_history(hist: tuple, res: ShardResult | None) -> list[tuple[str, Any, An
     return out
 
 
+def _time_dependent(op: tuple) -> bool:
+    return len(op) > 1 and op[1] in ("now", "today", "nowfilter", "todayfilter")
+
+
 def _opname(op: tuple) -> str:
     return op[0] + (":" + str(op[1]) if len(op) > 1 and isinstance(op[1], str) else "")
 
@@ -474,18 +544,82 @@ def _opname(op: tuple) -> str:
 # ------------------------------------------------------------------ concurrent renders of one Template (E4)
 
 
+LOAD_GLOBALS = [{"who": "alice"}, {"who": "bob"}, None]
+LOAD_TEMPLATES = {"greet": "Hello, {{ who }}!{% include 'sig' %}", "sig": "[{{ who }}]"}
+
+
 def schedule_sets(tier: str) -> list[tuple]:
     names = ["counter", "cycle", "include", "drops", "capture", "offset", "extends"]
     sets = [(n, (0, 1)) for n in names] + [(n, (0, 0)) for n in ("drops", "include")]
+    # concurrent first loads of one name, each caller with its own globals, on a caching loader whose lookup suspends
+    sets += [("load:greet", (0, 1)), ("load:greet", (0, 2)), ("load:greet", (1, 1))]
     if tier == "thorough":
-        sets += [(n, (0, 1, 0)) for n in names]
+        sets += [(n, (0, 1, 0)) for n in names] + [("load:greet", (0, 1, 2)), ("load:greet", (0, 1, 1))]
     return sets
+
+
+def _slow_env() -> Any:
+    import asyncio
+
+    from liquid2 import CachingDictLoader
+    from liquid2 import Environment
+
+    class Slow(CachingDictLoader):
+        async def get_source_async(self, env: Any, template_name: str, *, context: Any = None, **kw: Any) -> Any:
+            await asyncio.sleep(0)
+            return self.get_source(env, template_name, context=context, **kw)
+
+    return Environment(loader=Slow(dict(LOAD_TEMPLATES)))
+
+
+def check_load_schedules(name: str, gis: tuple, res: ShardResult | None, max_runs: int) -> list[tuple[str, Any, Any, Any]]:
+    from liquid2 import DictLoader
+    from liquid2 import Environment
+
+    from mc.vloop import VLoop
+    from mc.vloop import explore
+
+    out: list[tuple[str, Any, Any, Any]] = []
+    tname = name.split(":", 1)[1]
+    expected = [["ok", Environment(loader=DictLoader(dict(LOAD_TEMPLATES))).get_template(tname, globals=LOAD_GLOBALS[gi]).render()] for gi in gis]
+    seen: set[str] = set()
+
+    async def job(env: Any, g: Any) -> str:
+        t = await env.get_template_async(tname, globals=g)
+        return await t.render_async()
+
+    def run(loop: VLoop) -> Any:
+        env = _slow_env()
+        return loop.run_all([job(env, LOAD_GLOBALS[gi]) for gi in gis])
+
+    def on_run(loop: VLoop, result: Any) -> None:
+        got = [["ok", v] if k == "ok" else ["exc", type(v).__name__] for k, v in result]
+        if res is not None:
+            res.evaluations += 1
+            res.transitions += loop.steps
+            res.states.add(h64([name, gis, loop.choices]))
+            if any(loop.choices):
+                res.nontrivial.add(h64([name, gis, loop.choices]))
+            res.outcomes.add(h64(got))
+        for i, (e, g) in enumerate(zip(expected, got)):
+            if e != g and f"{i}" not in seen:
+                seen.add(f"{i}")
+                out.append((f"C09:concurrent-load-differs:{tname}", {"template": name, "data": list(gis), "schedule": list(loop.choices), "task": i}, e, g))
+
+    stats = explore(run, max_runs=max_runs, on_run=on_run)
+    if res is not None:
+        res.count("schedules", stats["schedules"])
+        if stats["capped"]:
+            res.capped = True
+    return out
 
 
 def check_schedules(name: str, dis: tuple, res: ShardResult | None, max_runs: int) -> list[tuple[str, Any, Any, Any]]:
     from mc.vloop import VLoop
     from mc.vloop import explore
 
+    if name.startswith("load:"):
+        return check_load_schedules(name, dis, res, max_runs)
     out: list[tuple[str, Any, Any, Any]] = []
     install_clock()
     set_clock(T0)
